@@ -88,6 +88,9 @@ inductive Fn2 where
   | raiseIfMod (k r : Nat) (exc : String := "ValueError")   -- raise the named exception when x % k == r else acc + x
   | pairLast          -- (acc_last_count + 1, x)
   | appendFst         -- acc = (list, n): acc[0].append(x); return (acc[0], n + 1)   (a tuple seed holding a mutable list)
+  | appendRaiseIfMod (k r : Nat) (exc : String := "ValueError")   -- acc + [x], raising the named exception when x % k == r
+                      -- (Python: acc.append(x) FIRST, then the test: the real function has already changed the object it was
+                      -- given when it raises; the harness uses it only where that object is a seed copy nobody else holds)
   deriving Repr
 
 def Fn2.eval : Fn2 → Val → Val → Except Err Val
@@ -110,6 +113,11 @@ def Fn2.eval : Fn2 → Val → Val → Except Err Val
       let c ← Val.add (a.nth 1) (.int 1)
       match a.nth 0 with
       | .list l => pure (Val.tup [Val.lst (l.toList ++ [x]), c])
+      | _ => .error "AttributeError"
+  | .appendRaiseIfMod k r exc, a, x => match a with
+      | .list l => do
+          let i ← intOf x
+          if i % (k : Int) == (r : Int) then .error exc else pure (Val.lst (l.toList ++ [x]))
       | _ => .error "AttributeError"
 
 end Rx
